@@ -241,6 +241,8 @@ def main():
                 broken.append(dict(kind="translator", detail=gen))
             elif cfg.get("graph_tie") and gen.get("graph", {}).get("status") != "ok":
                 broken.append(dict(kind="translator", detail=dict(layer="graph.py decision expressions (py2lean_graph.py)", **gen.get("graph", {}))))
+            elif cfg.get("g2o_tie") and gen.get("g2o", {}).get("status") != "ok":
+                broken.append(dict(kind="translator", detail=dict(layer=".g2o reader / writer statements (py2lean_g2o.py)", **gen.get("g2o", {}))))
             elif cfg.get("cmp_tie") and gen.get("cmp", {}).get("status") != "ok":
                 broken.append(dict(kind="translator", detail=dict(layer="equals / is_valid guard sequences (py2lean_cmp.py)", **gen.get("cmp", {}))))
             thms = theorem_index(cfg["theorem_files"])
